@@ -167,7 +167,8 @@ def rule_a(ctx):
 
 
 def _draw_cut(b):
-    return edges_where(b, lambda truth, src, a, s: truth is True and src_field(src) == (R, "draw_borders"))
+    from ..util import field_true_edges
+    return field_true_edges(b, R, "draw_borders")
 
 
 def rule_b(ctx):
